@@ -73,6 +73,8 @@ func (c *tcond) lql() string {
 		return "(" + c.L.lql() + ") and (" + c.R.lql() + ")"
 	case "or":
 		return "(" + c.L.lql() + ") or (" + c.R.lql() + ")"
+	case "not":
+		return "not (" + c.L.lql() + ")"
 	}
 	return ""
 }
@@ -92,6 +94,8 @@ func (c *tcond) eval(tags map[string]string) bool {
 		return c.L.eval(tags) && c.R.eval(tags)
 	case "or":
 		return c.L.eval(tags) || c.R.eval(tags)
+	case "not":
+		return !c.L.eval(tags)
 	}
 	return false
 }
@@ -130,6 +134,8 @@ func (f fcond) lql() string {
 		return "fields:" + f.K + " = " + strconv.Quote(f.S)
 	case "fldne":
 		return "fields:" + f.K + " != " + strconv.Quote(f.S)
+	case "nand":
+		return fmt.Sprintf("not (msg contains %s and ts > %d)", strconv.Quote(f.S), f.N)
 	}
 	return ""
 }
@@ -137,6 +143,8 @@ func (f fcond) lql() string {
 // eval is the reference meaning on the SOURCE event (its own fields; the tags the pipe appends are not part of it)
 func (f fcond) eval(ts int64, msg, fields string) bool {
 	switch f.Kind {
+	case "nand":
+		return !(strings.Contains(msg, f.S) && ts > f.N)
 	case "fldeq":
 		return kvValue(fields, f.K) == f.S
 	case "fldne":
@@ -163,6 +171,8 @@ func (f fcond) driver() string {
 		return "fldeq:" + vh.HxS(f.K) + ":" + vh.HxS(f.S)
 	case "fldne":
 		return "fldne:" + vh.HxS(f.K) + ":" + vh.HxS(f.S)
+	case "nand":
+		return fmt.Sprintf("nand:%s:%d", vh.HxS(f.S), f.N)
 	}
 	return "true"
 }
@@ -1105,6 +1115,9 @@ var sPool = []tcond{
 	{Kind: "or", L: &tcond{Kind: "eq", K: "grp", V: "g1"}, R: &tcond{Kind: "eq", K: "grp", V: "g3"}},
 	{Kind: "and", L: &tcond{Kind: "eq", K: "grp", V: "g1"}, R: &tcond{Kind: "eq", K: "app", V: "a1"}},
 	{Kind: "eq", K: "host", V: "h1"},
+	// negated groups: the statement text is printed and re-parsed (CREATE PIPE stores the printed conditions; restart re-parses them)
+	{Kind: "not", L: &tcond{Kind: "and", L: &tcond{Kind: "eq", K: "grp", V: "g1"}, R: &tcond{Kind: "eq", K: "app", V: "a1"}}},
+	{Kind: "not", L: &tcond{Kind: "or", L: &tcond{Kind: "eq", K: "grp", V: "g2"}, R: &tcond{Kind: "like", K: "app", V: "b*"}}},
 }
 
 func genHistory(rng *vh.Rng, idx int, withFilter bool) *history {
@@ -1114,7 +1127,10 @@ func genHistory(rng *vh.Rng, idx int, withFilter bool) *history {
 	}
 	h.S = sPool[rng.Intn(len(sPool))]
 	if withFilter {
-		switch rng.Intn(6) {
+		switch rng.Intn(7) {
+		case 6:
+			// a negated group: what the pipe stores is the PRINTED statement, parsed again
+			h.F = fcond{Kind: "nand", S: rng.PickS([]string{"x", "k7"}), N: int64(rng.Range(2, 30))}
 		case 4, 5:
 			// a condition on a field that is also a tag of (some of) the sources: the tags the pipe appends must not count
 			k := rng.PickS([]string{"grp", "app", "host"})
@@ -1875,6 +1891,193 @@ func sectionParked(rng *vh.Rng, corpus []parkedCase) {
 }
 
 // ---------------------------------------------------------------------------------------------
+// life cycle: a pipe re-created under the name of a deleted one; a pipe whose sources are another pipe's partition
+
+type lifecycleCase struct {
+	Variant string `json:"variant"`        // recreate-parked | recreate-free | recreate-after-removal | chain-named | chain-all | client-writes-pipe-partition
+	Name    string `json:"name,omitempty"` // pipe name of the recreate variants (default pr); names the file-name escaping has to treat
+}
+
+func msgsOf(es []*api.LogEvent) []string {
+	m := make([]string, len(es))
+	for i, e := range es {
+		m[i] = e.Message
+	}
+	return m
+}
+
+func runLifecycle(c lifecycleCase, sec *vh.Section) {
+	dir := lrsrv.NewDir()
+	defer os.RemoveAll(dir)
+	srv, err := lrsrv.Start(dir, lrsrv.Opts{WriteFlushMs: 40})
+	if err != nil {
+		res.Note("lifecycle: %v", err)
+		return
+	}
+	defer srv.Stop()
+	tl := "app=a1,grp=g1"
+	r := &runner{h: &history{Sources: []map[string]string{{"app": "a1", "grp": "g1"}}}, srv: srv, written: make([][]ev, 1)}
+	res.Eval(sec, c.Variant)
+	res.Dist(sec, c.Variant)
+	destOf := func(name string) string {
+		d, _ := srv.Pipes.GetPipe(name)
+		return d.DestTags.Line().String()
+	}
+	switch c.Variant {
+	case "recreate-parked", "recreate-free", "recreate-after-removal":
+		name := "pr"
+		if c.Name != "" {
+			name = c.Name
+		}
+		res.Dist(sec, fmt.Sprintf("name=%q", name))
+		if _, err := srv.Pipes.CreatePipe(pipe.Pipe{Name: name, TagsCond: "grp=g1"}); err != nil {
+			res.Note("lifecycle: create %q: %v", name, err)
+			return
+		}
+		dest := destOf(name)
+		r.write(0, mkEvs("e", 0, 3), "direct")
+		waitDest(srv, dest, 3, 8*time.Second)
+		settle(srv, name, tl, dest)
+		release := make(chan struct{})
+		arrived := make(chan struct{}, 4)
+		if c.Variant == "recreate-parked" {
+			// the deleted pipe's clean-up goroutine (`go p.delete()`) is held before it removes the positions file
+			verifhook.Set("pipe.delete.beforeRemove", func() { arrived <- struct{}{}; <-release })
+			defer verifhook.Set("pipe.delete.beforeRemove", nil)
+		}
+		if err := srv.Pipes.DeletePipe(name); err != nil {
+			res.Note("lifecycle: %v", err)
+			return
+		}
+		switch c.Variant {
+		case "recreate-parked":
+			select {
+			case <-arrived:
+			case <-time.After(5 * time.Second):
+				res.Note("lifecycle: the delete goroutine did not reach pipe.delete.beforeRemove")
+			}
+			// written while no pipe exists
+			r.write(0, mkEvs("e", 3, 2), "direct")
+			srv.FlushWait()
+		case "recreate-after-removal":
+			time.Sleep(300 * time.Millisecond) // the clean-up has certainly run
+			r.write(0, mkEvs("e", 3, 2), "direct")
+			srv.FlushWait()
+		}
+		// the same name again: a NEW pipe, created now
+		if _, err := srv.Pipes.CreatePipe(pipe.Pipe{Name: name, TagsCond: "grp=g1"}); err != nil {
+			res.Note("lifecycle: re-create: %v", err)
+			return
+		}
+		inherited := descLine(srv, name, tl) // what the new pipe knows about the source before any notification
+		if c.Variant == "recreate-parked" {
+			close(release)
+			time.Sleep(100 * time.Millisecond)
+		}
+		created := len(r.written[0])
+		r.write(0, mkEvs("e", created, 1), "direct")
+		waitDest(srv, dest, 3+1, 8*time.Second)
+		settle(srv, name, tl, dest)
+		got := msgsOf(mustRead(srv, "select from "+dest))
+		want := []string{"e0", "e1", "e2", fmt.Sprintf("e%d", created)}
+		if strings.Join(got, " ") != strings.Join(want, " ") || inherited != "none" {
+			finding := ""
+			// class of F74: a pipe created under the name of a deleted pipe BEFORE that pipe's asynchronous clean-up has removed
+			// its positions file (the clean-up goroutine is parked). Inheritance after the clean-up has run is something else.
+			if inherited != "none" && c.Variant == "recreate-parked" {
+				finding = "F74"
+			}
+			res.SpecFail(vh.SpecFailure{Section: "lifecycle", Kind: "recreated-pipe-inherits-positions", Input: c,
+				Impl: fmt.Sprintf("pipe partition: %v; descriptor of the source right after the re-creation: %s", got, inherited), Spec: fmt.Sprintf("%v; no descriptor", want),
+				ImplEqModel: false, Finding: finding,
+				What: "a pipe created under the name of a deleted pipe loads that pipe's positions file: it copies events written before it was created (while no pipe existed)"})
+		}
+	case "chain-named", "chain-all", "client-writes-pipe-partition":
+		srv.Pipes.CreatePipe(pipe.Pipe{Name: "pa", TagsCond: "grp=g1"})
+		destA := destOf("pa")
+		cond := destA // the tags of pa's partition as a source condition
+		if c.Variant == "chain-all" {
+			cond = ""
+		}
+		if _, err := srv.Pipes.CreatePipe(pipe.Pipe{Name: "pb", TagsCond: cond}); err != nil {
+			res.Mismatch(vh.Mismatch{Section: "lifecycle", Function: "a source condition naming a pipe's partition", Input: c, Impl: err.Error(), Model: "accepted"})
+			return
+		}
+		destB := destOf("pb")
+		if c.Variant == "client-writes-pipe-partition" {
+			// control: a CLIENT writes into pa's partition — pb copies that
+			var wr api.WriteResult
+			srv.Client.Write(context.Background(), destA, "", []*api.LogEvent{{Timestamp: 1, Message: "c0"}, {Timestamp: 2, Message: "c1"}}, &wr)
+			waitDest(srv, destB, 2, 8*time.Second)
+			settle(srv, "pb", "", destB)
+			got := msgsOf(mustRead(srv, "select from "+destB))
+			if strings.Join(got, " ") != "c0 c1" {
+				res.SpecFail(vh.SpecFailure{Section: "lifecycle", Kind: "lost-event", Input: c, Impl: fmt.Sprint(got), Spec: "[c0 c1]", What: "events a client writes into a pipe's partition are not copied by a pipe listening to that partition"})
+			}
+			return
+		}
+		r.write(0, mkEvs("e", 0, 3), "direct")
+		waitDest(srv, destA, 3, 8*time.Second)
+		settle(srv, "pa", tl, destA)
+		// give pb every chance
+		waitDest(srv, destB, 3, 1500*time.Millisecond)
+		settle(srv, "pb", "", destB)
+		gotA := msgsOf(mustRead(srv, "select from "+destA))
+		gotB := msgsOf(mustRead(srv, "select from "+destB))
+		// by the letter of C10: pb's partition receives the events written after its creation to partitions whose tags satisfy
+		// its condition — pa's partition does (and, for the empty condition, the source itself)
+		var want []string
+		if c.Variant == "chain-all" {
+			want = []string{"e0", "e1", "e2", "e0", "e1", "e2"} // from the source and from pa's partition (any interleaving)
+		} else {
+			want = []string{"e0", "e1", "e2"}
+		}
+		sg, sw := append([]string{}, gotB...), append([]string{}, want...)
+		sort.Strings(sg)
+		sort.Strings(sw)
+		if strings.Join(gotA, " ") != "e0 e1 e2" {
+			res.SpecFail(vh.SpecFailure{Section: "lifecycle", Kind: "lost-event", Input: c, Impl: fmt.Sprint(gotA), Spec: "[e0 e1 e2]", What: "the first pipe did not copy its source"})
+		} else if strings.Join(sg, " ") != strings.Join(sw, " ") {
+			res.SpecFail(vh.SpecFailure{Section: "lifecycle", Kind: "pipe-output-not-piped", Input: c,
+				Impl: fmt.Sprintf("pb's partition: %v (pa's partition: %v)", gotB, gotA), Spec: fmt.Sprintf("%v (any interleaving of the two sources)", want),
+				ImplEqModel: true, Finding: "F75",
+				What: "a pipe whose source condition is satisfied by another pipe's partition never copies what that pipe writes there (pipe workers write with noEvent = true), although a client's writes into the same partition are copied"})
+		}
+	}
+}
+
+func mustRead(srv *lrsrv.Srv, q string) []*api.LogEvent {
+	es, err := readAll(srv, q)
+	if err != nil {
+		return nil
+	}
+	return es
+}
+
+func sectionLifecycle(corpus []lifecycleCase) {
+	sec := res.Section("lifecycle", "spec-search",
+		"(a) a pipe deleted and created again under the same name: with the deleted pipe's clean-up goroutine parked before it removes the positions file (hook pipe.delete.beforeRemove), free-running right after DeletePipe returned, and after the clean-up has run; events written while no pipe existed must never be copied and the new pipe must know nothing about the source before its first notification; (b) a pipe whose source condition names another pipe's partition, or is empty: what the first pipe writes there vs what a client writes there; runs one case at a time (process-global hook); non-trivial = every case")
+	seen := map[string]bool{}
+	cs := []lifecycleCase{}
+	all := append(corpus, lifecycleCase{Variant: "recreate-parked"}, lifecycleCase{Variant: "recreate-free"}, lifecycleCase{Variant: "recreate-after-removal"},
+		lifecycleCase{Variant: "chain-named"}, lifecycleCase{Variant: "chain-all"}, lifecycleCase{Variant: "client-writes-pipe-partition"})
+	// (names whose tag line needs quoting — blanks, non-ASCII — are C08's business: the pipe's partition could not be queried)
+	for _, n := range []string{"p_r", "p:r", "p/r", "p.dat", "p-r"} {
+		all = append(all, lifecycleCase{Variant: "recreate-after-removal", Name: n})
+	}
+	for _, c := range all {
+		if !seen[c.Variant+"|"+c.Name] {
+			seen[c.Variant+"|"+c.Name] = true
+			cs = append(cs, c)
+		}
+	}
+	for _, c := range cs {
+		runLifecycle(c, sec)
+	}
+	res.Done(sec)
+}
+
+// ---------------------------------------------------------------------------------------------
 // record sizes: the pipe makes every record longer (provenance fields); the journal can serve records up to MaxRecordSize
 
 type recsizeCase struct {
@@ -2288,6 +2491,11 @@ func sectionOracle() {
 			fs = append(fs, fcond{Kind: "fldeq", K: k, S: v}, fcond{Kind: "fldne", K: k, S: v})
 		}
 	}
+	for _, sx := range []string{"x", "k7"} {
+		for n := int64(0); n <= 40; n += 9 {
+			fs = append(fs, fcond{Kind: "nand", S: sx, N: n})
+		}
+	}
 	for _, fc := range fs {
 		f, err := lql.BuildWhereExpFunc(fc.lql())
 		if err != nil {
@@ -2316,6 +2524,7 @@ type corpusDoc struct {
 
 var corpusRespawn []respawnCase
 var corpusRecsize []recsizeCase
+var corpusLifecycle []lifecycleCase
 
 func sectionCorpus() (parked []parkedCase) {
 	sec := res.Section("corpus", "corpus", "witnesses of the open findings and minimised past failures (corpus/C10/*.json), replayed first: histories through the same runner as section history, parked cases in section parked")
@@ -2347,6 +2556,11 @@ func sectionCorpus() (parked []parkedCase) {
 			if json.Unmarshal(d.Input, &c) == nil {
 				corpusRecsize = append(corpusRecsize, c)
 			}
+		case "lifecycle":
+			var c lifecycleCase
+			if json.Unmarshal(d.Input, &c) == nil {
+				corpusLifecycle = append(corpusLifecycle, c)
+			}
 		}
 	}
 	runPar(hs, 12, func(h *history) { runHistory(h, sec, "corpus") })
@@ -2365,6 +2579,11 @@ func replay(path string) {
 		json.Unmarshal(d.Input, &h)
 		sec := res.Section("history", "replay", "replay of one recorded history")
 		runHistory(&h, sec, "history")
+	case "lifecycle":
+		var c lifecycleCase
+		json.Unmarshal(d.Input, &c)
+		sec := res.Section("lifecycle", "replay", "replay of one life-cycle case")
+		runLifecycle(c, sec)
 	case "recsize":
 		var c recsizeCase
 		json.Unmarshal(d.Input, &c)
@@ -2430,6 +2649,9 @@ func main() {
 	}
 	if want("recsize") {
 		sectionRecsize(corpusRecsize)
+	}
+	if want("lifecycle") {
+		sectionLifecycle(corpusLifecycle)
 	}
 	if want("respawn") {
 		sectionRespawn(corpusRespawn)
